@@ -181,6 +181,207 @@ def site_query(label: str, w_pub: str, r_obs: str, link_ord: Optional[str], cros
     return C.check(s, 'C15 ' + label, cross=cross) == 'sat'
 
 
+# ---- observing side: pointers obtained from shared cells by swap / compare_exchange (loads go through Guard::protect) -------
+
+OBS_SAFE = re.compile(r'(Shared::is_null$|Shared as PartialEq>::(eq|ne)$|Option as PartialEq>::(eq|ne)$|panicking::|assert_failed|retire_shared$|Guard::defer_retire$|'
+                      r'fmt::|Debug>::fmt$|mem::drop$|mem::forget$|Result::is_ok$|Result::is_err$|Option::is_some$|Option::is_none$|Guard::retire$)')
+OBS_PROPAGATE = re.compile(r'(Shared as Clone>::clone$|as From>::from$|Into>::into$|Shared as Copy>|Result::unwrap$|Result::expect$|Result::unwrap_err$|Result::ok$|Result::err$|Option::unwrap$|Option::expect$|'
+                           r'Result::unwrap_or_else$|Result::map_err$)')
+
+
+def _norm(proj) -> Tuple:
+    out = []
+    for e in proj:
+        if e[0] == 'field':
+            out.append(('f', e[1]))
+        elif e[0] == 'downcast':
+            out.append(('v', str(e[1]).split('::')[-1]))
+        elif e[0] == 'deref':
+            continue
+        else:
+            out.append(('x',))
+    return tuple(out)
+
+
+def _flow(taint: Tuple, read: Tuple) -> Optional[Tuple]:
+    """what a read of path `read` yields when `taint` is the tainted sub-path of the same local: remainder, or None"""
+    n = min(len(taint), len(read))
+    for i in range(n):
+        a, b = taint[i], read[i]
+        if a == b:
+            continue
+        return None
+    if len(read) <= len(taint):
+        return taint[len(read):]
+    return ()
+
+
+def deref_uses(fn: M.Function, res_local: int, path: Tuple) -> List[str]:
+    """uses (other than null tests, comparisons, retirement, formatting) of the pointer found at `path` inside `res_local`"""
+    taints: Dict[int, Set[Tuple]] = {res_local: {path}}
+    uses: List[str] = []
+    seen_use = set()
+
+    def reads(place) -> List[Tuple]:
+        if place is None:
+            return []
+        out = []
+        for tp in taints.get(place.local, ()):
+            r = _flow(tp, _norm(place.proj))
+            if r is not None:
+                out.append(r)
+        return out
+
+    def add(local, pth) -> bool:
+        cur = taints.setdefault(local, set())
+        if pth in cur:
+            return False
+        cur.add(pth)
+        return True
+    changed = True
+    while changed:
+        changed = False
+        for b in fn.blocks.values():
+            for st in b.stmts:
+                if st.kind != 'assign':
+                    continue
+                rv = st.rvalue
+                got: List[Tuple] = []
+                if rv.kind in ('use', 'cast') and rv.ops and rv.ops[0].place is not None:
+                    got = reads(rv.ops[0].place)
+                elif rv.kind in ('ref', 'rawptr', 'copyforderef') and rv.place is not None:
+                    got = reads(rv.place)
+                elif rv.kind == 'aggregate':
+                    variant = None
+                    if rv.op == 'adt' and rv.ty and re.search(r'(Option|Result|ControlFlow)(::<.*>)?::(\w+)$', M.strip_generics(rv.ty) if False else rv.ty):
+                        variant = rv.ty.rsplit('::', 1)[-1]
+                    for i, (fname, o) in enumerate(rv.extra or []):
+                        for r in (reads(o.place) if o.place is not None else []):
+                            pre = ((('v', variant),) if variant else ()) + (('f', i),)
+                            got.append(pre + r)
+                dest = _norm(st.place.proj)
+                for r in got:
+                    if add(st.place.local, dest + r):
+                        changed = True
+            t = b.term
+            if t.kind == 'call':
+                n = P.callee_name(t) if t.callee_op is None else '<indirect>'
+                hit = []
+                for a in t.args:
+                    hit += reads(a.place) if a.place is not None else []
+                if not hit:
+                    continue
+                if OBS_SAFE.search(n):
+                    continue
+                if OBS_PROPAGATE.search(n):
+                    if t.place is not None:
+                        for r in hit:
+                            # unwrap-like calls strip one level of Option/Result
+                            r2 = r
+                            if re.search(r'(unwrap|expect|ok|err|unwrap_err|unwrap_or_else)$', n) and r2 and r2[0][0] == 'v':
+                                r2 = r2[2:] if len(r2) > 1 else ()
+                            if add(t.place.local, _norm(t.place.proj) + r2):
+                                changed = True
+                    continue
+                key = (b.idx, n)
+                if key not in seen_use and any(r == () or all(e[0] != 'x' for e in r) for r in hit):
+                    # only a use of the pointer itself (or of a struct that contains it) counts
+                    seen_use.add(key)
+                    uses.append('%s @ %s' % (n, (t.span or '').split(': ')[0]))
+    return uses
+
+
+def observer_sites(prog: P.Program, chk: 'C.Check') -> List[Tuple[str, str, str]]:
+    """every swap / compare_exchange on a pointer cell whose result is used as a pointer: the ordering under which that
+    result is read must be acquire-or-stronger (query: W_init -> W_pub(release) -rf-> R_obs(ord) -> R_payload)"""
+    bad: List[Tuple[str, str, str]] = []
+    # Table::cas_bin forwards to Atomic::compare_exchange with these orderings
+    wrap = prog.get('raw::Table::cas_bin')
+    cas_ord = ('?', '?')
+    for b in wrap.blocks.values():
+        t = b.term
+        if t.kind == 'call' and P.callee_name(t).endswith('reclaim::Atomic::compare_exchange'):
+            ords = [ordering_of(wrap, a) for a in t.args if 'Ordering' in wrap.locals.get(a.place.local if a.place else -1, '')]
+            if len(ords) == 2:
+                cas_ord = (ords[0], ords[1])
+    # Atomic::load must go through the collector's protect (which loads SeqCst); otherwise load sites are judged as written
+    loadf = prog.get('reclaim::Atomic::load')
+    via_protect = any(b.term.kind == 'call' and P.callee_name(b.term).endswith('Guard::protect') for b in loadf.blocks.values())
+    chk.obligation('reclaim::Atomic::load reads through Guard::protect (SeqCst in seize 0.3)', 'holds' if via_protect else 'violated', nontrivial=False)
+    nobs = 0
+    for name, f in sorted(prog.fns.items()):
+        if f.is_const or name.startswith('reclaim::Atomic::') or name.startswith('raw::Table::cas_bin') or re.search(r'(fmt|::test|tests::|Debug)', name):
+            continue
+        if name.endswith('drop_fields') or name.endswith('drop_tree_nodes') or ('<' in name and 'as Drop>' in name):
+            continue        # (O) owned teardown: &mut self, no other thread can hold the object
+        for b in f.blocks.values():
+            t = b.term
+            if t.kind != 'call' or t.place is None or t.callee_op is not None:
+                continue
+            n = P.callee_name(t)
+            srcs: List[Tuple[str, Tuple, str]] = []     # (what, path in the result, ordering)
+            if n.endswith('reclaim::Atomic::swap'):
+                ords = [ordering_of(f, a) for a in t.args if 'Ordering' in f.locals.get(a.place.local if a.place else -1, '')]
+                srcs.append(('swap result', (), ords[0] if ords else '?'))
+            elif n.endswith('reclaim::Atomic::compare_exchange') or n.endswith('raw::Table::cas_bin'):
+                if n.endswith('cas_bin'):
+                    so, fo = cas_ord
+                else:
+                    ords = [ordering_of(f, a) for a in t.args if 'Ordering' in f.locals.get(a.place.local if a.place else -1, '')]
+                    so, fo = (ords + ['?', '?'])[:2]
+                srcs.append(('value read by the failed compare_exchange (Err.current)', (('v', 'Err'), ('f', 0), ('f', 0)), fo))
+                srcs.append(('previous value returned by the successful compare_exchange', (('v', 'Ok'), ('f', 0)), so))
+            elif not via_protect and (n.endswith('reclaim::Atomic::load') or n.endswith('raw::Table::bin')):
+                ords = [ordering_of(f, a) for a in t.args if 'Ordering' in f.locals.get(a.place.local if a.place else -1, '')]
+                srcs.append(('load result (not through Guard::protect)', (), ords[0] if ords else 'Acquire'))
+            for what, pth, o in srcs:
+                uses = deref_uses(f, t.place.local, pth)
+                if not uses:
+                    continue
+                nobs += 1
+                chk.encoded(f)
+                site = '%s @ %s [%s, %s]' % (name, (t.span or '').split(': ')[0], what, o)
+                racy = site_query('o%d' % nobs, 'Release', o, None, cross=(nobs % 5 == 0))
+                chk.obligation('%s: the observing access is acquire-or-stronger (its result is used: %s)' % (site, uses[0]), 'unsat' if not racy else 'sat')
+                if racy:
+                    bad.append((site, 'the pointer is obtained with ordering %s and then used (%s); the publishing release store does not synchronise with it' % (o, '; '.join(uses[:3])),
+                                'W_init -po-> W_pub(Release or stronger) -rf-> R_obs(%s: %s) -po-> R_payload ; R_obs is not an acquire, so there is no sw edge and hb(W_init, R_payload) does not hold' % (what, o)))
+    chk.coverage['observing_sites'] = nobs
+    # root-lock handshake: relaxed link stores inside lock_root..unlock_root reach in-tree readers / the next writer only
+    # through the lock word: unlock_root must release, the entry CASes must acquire
+    def std_ops(fname, kind):
+        g = prog.get(fname)
+        out = []
+        for b in g.blocks.values():
+            t = b.term
+            if t.kind == 'call' and re.search(r'atomic::Atomic(I64|<i64>)?::%s$' % kind, P.callee_name(t)):
+                ords = [ordering_of(g, a) for a in t.args if 'Ordering' in g.locals.get(a.place.local if a.place else -1, '')]
+                out.append((ords, (t.span or '').split(': ')[0]))
+        return g, out
+    g_un, un = std_ops('node::TreeBin::unlock_root', 'store')
+    if len(un) != 1:
+        chk.inconclusive.append('unlock_root: expected exactly one store to lock_state, found %d' % len(un))
+        return bad
+    x = un[0][0][0]
+    for fname in ('node::TreeBin::find', 'node::TreeBin::lock_root', 'node::TreeBin::contended_lock'):
+        g, cs = std_ops(fname, 'compare_exchange')
+        if not cs:
+            chk.inconclusive.append('%s: no compare_exchange on lock_state recognised' % fname)
+            continue
+        chk.encoded(g)
+        for ords, span in cs:
+            y = ords[0] if ords else '?'
+            # a CAS that only sets the WAITER bit does not enter the lock; it is still an RMW, judged like the others (conservative: all are SeqCst today)
+            nobs += 1
+            racy = site_query('h%d' % nobs, x, y, 'Relaxed', cross=True)
+            site = '%s @ %s [lock_state compare_exchange %s] after unlock_root @ %s [store %s]' % (fname, span, y, un[0][1], x)
+            chk.obligation('(L) handshake %s: links written inside the root lock are ordered before accesses made after this lock-word CAS' % site, 'unsat' if not racy else 'sat')
+            if racy:
+                bad.append((site, 'tree links are written Relaxed inside lock_root..unlock_root; the lock word is released with %s and re-acquired here with %s, which does not establish happens-before' % (x, y),
+                            'W_init -po-> W_link(Relaxed, inside the root lock) -po-> W_unlock(lock_state store %s) -rf-> R_cas(lock_state %s) -po-> R_link -po-> R_payload ; no sw edge' % (x, y)))
+    return bad
+
+
 def run(tier: str) -> int:
     chk = C.Check('C15', tier, 'model_checking')
     prog = P.Program(C.mir_functions())
@@ -304,13 +505,16 @@ def run(tier: str) -> int:
             chk.obligation('%s: a store weaker than Release to a shared cell outside the root lock does not synchronise with its readers' % site, 'sat' if racy else 'unsat')
             if racy:
                 violations.append((site, 'the store is %s, its receiver is reachable by other threads and it is not inside the root-lock region:\n%s' % (w_ord, P.describe_path(f, r.path, 20))))
+    violations += observer_sites(prog, chk)
     chk.coverage['publication_sites'] = nsites
     chk.coverage['states'] = nsites
     chk.coverage['transitions'] = nsites
     chk.coverage['exhaustive'] = True
     if nsites < 60:
         chk.inconclusive.append('only %d publication sites recognised - front end out of date' % nsites)
-    for site, why in violations:
-        chk.violation('no-happens-before:' + site.split(' [')[0], '%s: %s\nevent graph: W_init -po-> W_pub(%s) -rf-> R_obs(SeqCst, guarded) -po-> R_payload ; no sw edge, so hb(W_init, R_payload) does not hold: the reader may see an uninitialised node/key/value' % (site, why, site.split('[')[-1].rstrip(']')),
-                      site + '\n' + why, 'graph_%s.txt' % re.sub(r'[^A-Za-z0-9]+', '_', site)[:80])
+    for v in violations:
+        site, why = v[0], v[1]
+        graph = v[2] if len(v) > 2 else 'W_init -po-> W_pub(%s) -rf-> R_obs(SeqCst, guarded) -po-> R_payload ; no sw edge, so hb(W_init, R_payload) does not hold' % site.split('[')[-1].rstrip(']')
+        chk.violation('no-happens-before:' + site.split(' [')[0], '%s: %s\nevent graph: %s: the reader may see an uninitialised node/key/value' % (site, why, graph),
+                      site + '\n' + why + '\n' + graph, 'graph_%s.txt' % re.sub(r'[^A-Za-z0-9]+', '_', site)[:80])
     return chk.finish()
